@@ -111,7 +111,7 @@ def host_ok(inp, out, o):
     dropped = []
     first_kept = True
     for lab in inp:
-        if i < len(out) and (out[i] == lab or (first_kept and o["normalize_amp"] and lab.startswith("amp-") and out[i] == lab[4:])):
+        if i < len(out) and (out[i] == lab or (first_kept and o["normalize_amp"] and lab.startswith("amp-") and out[i] in (lab[4:], urlref.host_labels(lab[4:])[0]))):   # what 'amp-' hid may be an A-label
             i += 1
             first_kept = False
         else:
